@@ -403,6 +403,10 @@ def parse_file_contents(data):
     :returns: A dict of the form ``{'policy_name1': 'policy1',
         'policy_name2': 'policy2,...}``
     """
+    if not data:
+        # An empty file, or a file that has gone away (for which
+        # _cache_handler.read_cached_file() returns {} instead of text)
+        return {}
     try:
         # NOTE(snikitin): jsonutils.loads() is much faster than
         # yaml.safe_load(). However jsonutils.loads() parses only JSON while
